@@ -46,6 +46,8 @@ Created(a, gs, n) ==
            <<G(Fn("MetaData", <<gs[a.s].view, a.t>>), gs[a.s].type, gs[a.s].ds, gs[a.s].qmd)>>
       [] a.act = "QMetaData" ->
            <<G(gs[a.s].view, gs[a.s].type, gs[a.s].ds, [gs[a.s].qmd EXCEPT ![KeyIx(a.k)] = a.v])>>
+      [] a.act = "QMetaData2" ->
+           <<G(gs[a.s].view, gs[a.s].type, gs[a.s].ds, <<a.v, a.c>>)>>
       [] a.act = "Terminal" ->
            <<G(Fn("ResultAwkwardArray", <<gs[a.s].view, Lst(<<StrC("c")>>)>>), "Any", gs[a.s].ds, gs[a.s].qmd)>>
       [] OTHER -> <<>>
